@@ -35,13 +35,15 @@ type contCase struct {
 	CliToks   []string // what the command line gives the container, as the tokens Set must see
 	ExtraToks []string
 	Argv      []string
+	CliToks2  []string // second invocation of the same application object
+	Argv2     []string
 	Env       EnvState
 	States    []string
 	Shape     string
 }
 
 func (c *contCase) Describe() interface{} {
-	m := map[string]interface{}{"decl": c.Decl.Describe(), "spec": c.App.Root.Spec, "argv": c.Argv, "env": c.Env.Describe(), "env_states": c.States, "cli_values": c.CliToks}
+	m := map[string]interface{}{"decl": c.Decl.Describe(), "spec": c.App.Root.Spec, "argv": c.Argv, "env": c.Env.Describe(), "env_states": c.States, "cli_values": c.CliToks, "second_invocation_argv": c.Argv2}
 	if c.Extra != nil {
 		m["extra_decl"] = c.Extra.Describe()
 	}
@@ -191,79 +193,88 @@ func genContainer(t *Tape) *contCase {
 	}
 
 	// command-line occurrences
-	var occ [][]string
-	for i := 0; i < nCli; i++ {
-		if isArg {
+	mkArgv := func(n int, extraArgv []string) (cliToks []string, argv []string) {
+		var occ [][]string
+		for i := 0; i < n; i++ {
+			if isArg {
+				tok := t.Pick(validPool[ek])
+				if ek == KString && t.Draw(8) == 0 {
+					tok = ""
+				}
+				cliToks = append(cliToks, tok)
+				occ = append(occ, []string{tok})
+				continue
+			}
+			if ek == KBool {
+				form := t.Draw(4)
+				switch form {
+				case 0:
+					cliToks = append(cliToks, "true")
+					occ = append(occ, []string{"-x"})
+				case 1:
+					cliToks = append(cliToks, "true")
+					occ = append(occ, []string{"--xx"})
+				default:
+					tok := t.Pick(validPool[KBool])
+					cliToks = append(cliToks, tok)
+					occ = append(occ, []string{[]string{"-x=", "--xx="}[form-2] + tok})
+				}
+				continue
+			}
 			tok := t.Pick(validPool[ek])
 			if ek == KString && t.Draw(8) == 0 {
 				tok = ""
 			}
-			c.CliToks = append(c.CliToks, tok)
-			occ = append(occ, []string{tok})
-			continue
-		}
-		if ek == KBool {
-			form := t.Draw(4)
-			switch form {
-			case 0:
-				c.CliToks = append(c.CliToks, "true")
-				occ = append(occ, []string{"-x"})
-			case 1:
-				c.CliToks = append(c.CliToks, "true")
-				occ = append(occ, []string{"--xx"})
+			cliToks = append(cliToks, tok)
+			switch {
+			case tok == "":
+				occ = append(occ, [][]string{{"-x", tok}, {"--xx", tok}}[t.Draw(2)])
+			case strings.HasPrefix(tok, "-") || strings.HasPrefix(tok, "="):
+				occ = append(occ, [][]string{{"-x=" + tok}, {"--xx=" + tok}}[t.Draw(2)])
 			default:
-				tok := t.Pick(validPool[KBool])
-				c.CliToks = append(c.CliToks, tok)
-				occ = append(occ, []string{[]string{"-x=", "--xx="}[form-2] + tok})
-			}
-			continue
-		}
-		tok := t.Pick(validPool[ek])
-		if ek == KString && t.Draw(8) == 0 {
-			tok = ""
-		}
-		c.CliToks = append(c.CliToks, tok)
-		switch {
-		case tok == "":
-			occ = append(occ, [][]string{{"-x", tok}, {"--xx", tok}}[t.Draw(2)])
-		case strings.HasPrefix(tok, "-") || strings.HasPrefix(tok, "="):
-			occ = append(occ, [][]string{{"-x=" + tok}, {"--xx=" + tok}}[t.Draw(2)])
-		default:
-			occ = append(occ, [][]string{{"-x=" + tok}, {"--xx=" + tok}, {"-x", tok}, {"--xx", tok}, {"-x" + tok}}[t.Draw(5)])
-		}
-	}
-	argv := []string{"app"}
-	if isArg {
-		argv = append(argv, extraArgv...)
-		dash := false
-		for _, o := range occ {
-			if strings.HasPrefix(o[0], "-") {
-				dash = true
+				occ = append(occ, [][]string{{"-x=" + tok}, {"--xx=" + tok}, {"-x", tok}, {"--xx", tok}, {"-x" + tok}}[t.Draw(5)])
 			}
 		}
-		if dash {
-			argv = append(argv, "--")
-		}
-		for _, o := range occ {
-			argv = append(argv, o...)
-		}
-	} else {
-		// the extra option goes before, between or after the occurrences
-		pos := 0
-		if len(occ) > 0 {
-			pos = t.Draw(len(occ) + 1)
-		}
-		for i, o := range occ {
-			if i == pos {
+		argv = []string{"app"}
+		if isArg {
+			argv = append(argv, extraArgv...)
+			dash := false
+			for _, o := range occ {
+				if strings.HasPrefix(o[0], "-") {
+					dash = true
+				}
+			}
+			if dash {
+				argv = append(argv, "--")
+			}
+			for _, o := range occ {
+				argv = append(argv, o...)
+			}
+		} else {
+			// the extra option goes before, between or after the occurrences
+			pos := 0
+			if len(occ) > 0 {
+				pos = t.Draw(len(occ) + 1)
+			}
+			for i, o := range occ {
+				if i == pos {
+					argv = append(argv, extraArgv...)
+				}
+				argv = append(argv, o...)
+			}
+			if pos >= len(occ) {
 				argv = append(argv, extraArgv...)
 			}
-			argv = append(argv, o...)
 		}
-		if pos >= len(occ) {
-			argv = append(argv, extraArgv...)
-		}
+		return
 	}
-	c.Argv = argv
+	c.CliToks, c.Argv = mkArgv(nCli, extraArgv)
+	// a second invocation of the same application object, giving the value again
+	n2 := nCli
+	if n2 == 0 {
+		n2 = 1
+	}
+	c.CliToks2, c.Argv2 = mkArgv(n2, nil)
 
 	root := &CmdDecl{Name: "app", Spec: spec, Decls: []*Decl{d}, Action: CB{Kind: CBReturn}}
 	if c.Extra != nil {
@@ -284,6 +295,11 @@ type contRun struct {
 	accepted bool
 	action   map[string]VarSnap
 	final    map[string]VarSnap
+
+	p2        *Proc
+	accepted2 bool
+	action2   map[string]VarSnap
+	final2    map[string]VarSnap
 }
 
 func runContainer(c *contCase) *contRun {
@@ -294,12 +310,23 @@ func runContainer(c *contCase) *contRun {
 		r.inst = Build(c.App, p)
 		return r.inst.Cli.Run(c.Argv)
 	})
-	EnvState{}.Apply()
+	defer EnvState{}.Apply()
 	if r.inst != nil {
 		r.action = r.inst.ActionSnap
 		r.final = r.inst.Snapshot()
 	}
 	r.accepted = p.End == EndReturned && p.Err == nil && len(p.Observed()) == 1 && p.Observed()[0] == "ACT:r"
+	if r.accepted && r.inst != nil {
+		// history: the same application object parses a second command line
+		p2 := NewProc(1)
+		r.inst.Proc = p2
+		r.inst.ActionSnap = nil
+		RunProc(p2, func() error { return r.inst.Cli.Run(c.Argv2) })
+		r.p2 = p2
+		r.accepted2 = p2.End == EndReturned && p2.Err == nil && len(p2.Observed()) == 1
+		r.action2 = r.inst.ActionSnap
+		r.final2 = r.inst.Snapshot()
+	}
 	return r
 }
 
@@ -400,7 +427,20 @@ func (c06Prop) Exec(cc Case, st *Stats) *Violation {
 		return v
 	}
 	if c.Extra != nil {
-		return check(c.Extra, c.ExtraToks)
+		if v := check(c.Extra, c.ExtraToks); v != nil {
+			return v
+		}
+	}
+	if r.accepted2 {
+		st.Count("reach.same_app_parsed_again")
+		exp, _ := precedenceModel(c.Decl, c.CliToks2, c.Env)
+		key := "r/" + c.Decl.Key()
+		for i, snap := range []map[string]VarSnap{r.action2, r.final2} {
+			if got := snap[key].Val; got != exp {
+				where := []string{"inside the Action", "after Run"}[i]
+				return &Violation{Clause: "rerun-precedence", Detail: fmt.Sprintf("second invocation of the same application object with %q: %s holds %s %s, the command line gives %s", c.Argv2, c.Decl.Key(), got, where, exp), Expected: exp, Observed: got}
+			}
+		}
 	}
 	return nil
 }
@@ -448,7 +488,19 @@ func (c15Prop) Exec(cc Case, st *Stats) *Violation {
 		return v
 	}
 	if c.Extra != nil {
-		return check(c.Extra, c.ExtraToks)
+		if v := check(c.Extra, c.ExtraToks); v != nil {
+			return v
+		}
+	}
+	if r.accepted2 {
+		st.Count("reach.same_app_parsed_again")
+		key := "r/" + c.Decl.Key()
+		for i, snap := range []map[string]VarSnap{r.action2, r.final2} {
+			if got := snap[key].SBU; got != "true" {
+				where := []string{"inside the Action", "after Run"}[i]
+				return &Violation{Clause: "rerun-setbyuser", Detail: fmt.Sprintf("second invocation of the same application object with %q: SetByUser of %s is %s %s", c.Argv2, c.Decl.Key(), got, where), Expected: "true", Observed: got}
+			}
+		}
 	}
 	return nil
 }
